@@ -1234,10 +1234,10 @@ class ParsedEvent(EDXMLEvent, etree.ElementBase):
             self.attrib[key] = value
 
     def get_type_name(self):
-        return self.attrib['event-type']
+        return self.attrib.get('event-type')
 
     def get_source_uri(self):
-        return self.attrib['source-uri']
+        return self.attrib.get('source-uri')
 
     def set_type(self, event_type_name):
         self.attrib['event-type'] = event_type_name
